@@ -167,3 +167,11 @@ func reps() int {
 // repsAfterFailure overrides the default 25 (virtual-time runs are far more
 // repeatable than real-time ones, and a livelocked candidate is expensive).
 var repsAfterFailure int
+
+// TestMain primes process-wide fixtures that must be created outside any
+// synctest bubble and before any goroutine census.
+func TestMain(m *testing.M) {
+	flag.Parse()
+	primeNestedErr()
+	os.Exit(m.Run())
+}
